@@ -268,6 +268,37 @@ theorem toplevel_assign_writes_globals (cfg : Config W) (fuel : Nat) (P : List S
   simp only [tick] at hev
   simp [hb, hev]
 
+/-- **include_continues_with_same_locals.**  An `include` statement, in WHATEVER scope it stands (`locals` arbitrary: the top
+level or the locals of any function call), hands the included scripts to `execIncludes` — which does not even take the
+including scope's locals as an argument, so nothing an included script does can depend on them or change them — and the
+including script continues with exactly the locals it had. -/
+theorem include_continues_with_same_locals (cfg : Config W) (fuel : Nat) (P : List Stmt) (locals : Option Env) (base cache)
+    (pc : Nat) (st : State W) (incs : List IncludeScript) (h : P[pc]? = some (.include incs)) (hb : BudgetOk cfg st) :
+    execM cfg (fuel+1) P locals base cache pc st =
+      match execIncludes cfg fuel base incs (tick st) with
+      | .done st2 => execM cfg fuel P locals base cache (pc+1) st2
+      | o => o := by
+  rw [execM.eq_1, h]
+  simp only [BudgetOk] at hb
+  simp only [tick]
+  simp [hb]
+  cases execIncludes cfg fuel base incs { globals := st.globals, world := st.world, count := st.count + 1 } <;> rfl
+
+/-- **included_script_runs_at_top_level.**  Every script an include fetches is executed as a script of its own: at TOP
+LEVEL (`locals = none`, so by `toplevel_assign_writes_globals` its assignments write the globals object and by
+`lookup_order` its reads see the globals only), from its first statement, with an empty label cache; its `return` ends
+only the included script. -/
+theorem included_script_runs_at_top_level (cfg : Config W) (fuel : Nat) (base : Option String) (inc : IncludeScript)
+    (rest : List IncludeScript) (st : State W) (stmts : List Stmt) (h : cfg.fetch (cfg.resolve base inc) = .script stmts) :
+    execIncludes cfg (fuel+1) base (inc :: rest) st =
+      match execM cfg fuel stmts none (some (cfg.resolve base inc)) [] 0 st with
+      | .done st' => execIncludes cfg fuel base rest st'
+      | .ret _ st' => execIncludes cfg fuel base rest st'
+      | o => o := by
+  rw [execIncludes.eq_2]
+  simp only [h]
+  cases execM cfg fuel stmts none (some (cfg.resolve base inc)) [] 0 st <;> rfl
+
 /-- **a call starts from fresh locals.**  The locals of a script-function call are built from the EMPTY dictionary by
 the parameter binding alone: they depend on the function definition, the arguments and the world — not on any earlier
 call, not on the caller's locals (which are not even an argument of `callValue`), not on the globals.  What the body
@@ -582,6 +613,34 @@ example : obs (execute (xcfg host [(0, scopeF), (1, scopeG)]) 100 scopeProg none
     = ⟨"done", none, ["1", "9", "7", "null", "5", "null"],
        [(nm "z", .num 9), (nm "f", .fn (.script 0)), (nm "g", .fn (.script 1)), (nm "x", .num 5), (nm "r", .num 7)]⟩ := by
   decide +kernel
+
+/-! ### an `include` issued inside a function runs the included script at top level -/
+
+/-- the included script reads `x`, assigns `x` and a fresh name, defines `h` (which reads `x`) and returns early -/
+def incScript : List Stmt :=
+  [logE (va "x"), .expr (some (nm "x")) (.string "inc"), .expr (some (nm "fresh")) (.number 1),
+   .function 1 (nm "h") [] false false [.ret (some (va "x"))], .ret none, .expr (some (nm "late")) (.number 2)]
+def incF : FuncDef :=
+  { name := nm "f", args := [nm "x"], lastArgArray := false,
+    body := [.include [{ url := "inc.bare", system := false }], logE (va "x"), .ret (some (va "x"))] }
+def incH : FuncDef := { name := nm "h", args := [], lastArgArray := false, body := [.ret (some (va "x"))] }
+def incCfg : Config World :=
+  { xcfg host [(0, incF), (1, incH)] with fetch := fun u => if u = "inc.bare" then .script incScript else .missing }
+def incProg : List Stmt :=
+  [.function 0 (nm "f") [nm "x"] false false incF.body, .expr (some (nm "x")) (.string "G"),
+   .expr (some (nm "r")) (callE "f" [.string "A"]), logE (va "x"), logE (callE "h" [])]
+
+/-- `f("A")` includes the script: its read of `x` sees the GLOBAL "G" (not the parameter "A"), its assignments reach the
+globals, `f`'s parameter is still "A" afterwards, the early `return` ended only the included script (no `late`) -/
+example : obs (execute incCfg 100 incProg none (start []))
+    = ⟨"done", none, ["G", "A", "inc", "inc"],
+       [(nm "f", .fn (.script 0)), (nm "x", .str "inc"), (nm "fresh", .num 1), (nm "h", .fn (.script 1)), (nm "r", .str "A")]⟩ := by
+  decide +kernel
+/-- the hypotheses of `include_continues_with_same_locals` / `included_script_runs_at_top_level` on this instance -/
+example : incF.body[0]? = some (.include [{ url := "inc.bare", system := false }]) := rfl
+example : incCfg.fetch (incCfg.resolve none { url := "inc.bare", system := false }) = .script incScript := by
+  simp [incCfg, xcfg]
+example : BudgetOk incCfg (start []) := by unfold BudgetOk; decide
 
 /-- a host without `systemGlobalSet`: every tree of the remaining library is free of `globalSet` requests -/
 def hostNoSet : Host World :=
